@@ -113,3 +113,16 @@ CLAIMS["C10"] = dict(
           "arrays), nor the path encoding produced by the DP kernels."),
     technique="interprocedural effect summary (who-may-write), store-form rule, exact affine loop ranges, argument agreement",
     design_ref="DESIGN.md section 3, C10 (R10a-R10d)")
+
+CLAIMS["C07"] = dict(
+    text=("Decides the structural necessary conditions of the meet-in-the-middle recursion: the three meetup functions "
+          "produce the same transition codes with the same (forward state, backward state) meaning, every candidate stores "
+          "as maximum exactly the expression it compared, every producible code has a case in aln_continue, and the case of "
+          "code k gives the two sub-problems exactly the boundary states k stands for (0 for the state, -FLT_MAX for the "
+          "others) and restores the saved outer states; do_align sets seq1/seq2/prof1/prof2 to one of the three kernel "
+          "shapes before every aln_runner call and mirrors the path (and swaps lengths) on exactly the swapped branches; "
+          "parallel and serial Hirschberg steps dispatch identically."),
+    note=("The optimality statement itself - recurrence weights, terminal-gap handling, tie-breaks, float rounding - is a "
+          "numerical property and is NOT decided."),
+    technique="producer/consumer exhaustiveness table, sibling cross-check of three kernels, guard/store agreement",
+    design_ref="DESIGN.md section 3, C07 (R07a-R07b)")
